@@ -13,7 +13,7 @@ import (
 func init() {
 	register(&propDef{
 		id: "C04", level: "other", perCfg: false,
-		explain: "Necessary structural conditions of C04, decided for all paths of the dispatch entry (the innermost function reachable from HandleMessage that decodes the request and invokes a dispatcher, analysed in its inlined view with the reply functions kept as calls, DESIGN 9.2) and of the built-in dispatcher (found by role: the callee of HandleMessage that is selected by comparison with the built-in interface's name). T1/T3 split: r = strings.LastIndex(method, \".\"); interface = method[:r]; method name = method[r+1:], all on the decoded method string. T2 guard: every use of these slices and every delivery carries r >= 1; on the complementary edge the only delivery is ReplyInvalidParameter(\"method\"). T4 exactly one delivery: on every path after a successful decode exactly one leaf delivery happens (a call of the reply write helper, an invoke of a dispatcher's VarlinkDispatch, or an explicit refusal error inside a reply function) - counted interprocedurally through the built-in handlers; the dispatcher invoked is the ok-result of the lookup of the interface name in the Service's table and receives (ctx, call, method name); the !ok edge replies InterfaceNotFound(interface name). T5 built-in: the constant compared with the interface name equals what the built-in interface's VarlinkGetName returns; the edge on which no built-in method name matched replies MethodNotFound(method name). T6: on the decode-error edge the decode error is returned with zero deliveries. T7: every function on the path returns the result of its delivery unchanged (a successful reply yields nil, so the connection stays usable; a failed one ends it). Routing depends on the method string and the table only: the dispatch path keeps no other state (fresh decode target, no Service writes - shared with C01.R5). T11 (= C13.M2) registration files an interface under exactly the name it reports. T2 also the converse: InvalidParameter(\"method\") is sent only under `last dot index <= 0`, so every other method string - trailing dot, empty components - is routed by its two parts.",
+		explain: "Necessary structural conditions of C04, decided for all paths of the dispatch entry (the innermost function reachable from HandleMessage that decodes the request and invokes a dispatcher, analysed in its inlined view with the reply functions kept as calls, DESIGN 9.2) and of the built-in dispatcher (found by role: the callee of HandleMessage that is selected by comparison with the built-in interface's name). T1/T3 split: r = strings.LastIndex(method, \".\"); interface = method[:r]; method name = method[r+1:], all on the decoded method string. T2 guard: every use of these slices and every delivery carries r >= 1; on the complementary edge the only delivery is ReplyInvalidParameter(\"method\"). T4 exactly one delivery: on every path after a successful decode exactly one leaf delivery happens (a call of the reply write helper, an invoke of a dispatcher's VarlinkDispatch, or an explicit refusal error inside a reply function) - counted interprocedurally through the built-in handlers; the dispatcher invoked is the ok-result of the lookup of the interface name in the Service's table and receives (ctx, call, method name); the !ok edge replies InterfaceNotFound(interface name). T5 built-in: the constant compared with the interface name equals what the built-in interface's VarlinkGetName returns; the edge on which no built-in method name matched replies MethodNotFound(method name). T6: on the decode-error edge the decode error is returned with zero deliveries. T7: every function on the path returns the result of its delivery unchanged (a successful reply yields nil, so the connection stays usable; a failed one ends it). Routing depends on the method string and the table only: the dispatch path keeps no other state (fresh decode target, no Service writes - shared with C01.R5). T11 (= C13.M2) registration files an interface under exactly the name it reports. T2 also the converse: InvalidParameter(\"method\") is sent only under `last dot index <= 0`, so every other method string - trailing dot, empty components - is routed by its two parts. T2 converse: every registered name that is not refused reaches the dispatcher lookup. T8 routing input is decoded into a fresh value and the dispatch path keeps no state in the Service or in package variables. T9 every standard error has its typed value. T10 (= C10.S6).",
 		notDec:  "Behaviour of user dispatchers; that Go map lookup is exact string equality (language semantics, trusted); JSON shape checking inside encoding/json.",
 		trusted: []string{"strings.LastIndex(s, sep) returns -1 or an index i with i+len(sep) <= len(s)", "encoding/json.Unmarshal into a struct fails for input that is not an object (or null) and for a non-string method member"},
 		run:     runC04,
